@@ -17,8 +17,8 @@ open Romea Romea.Proto Romea.LeastSquares
     ls.cov var               computeEstimateCovariance                 -> P e*e values (row-major)
     ls.peek i                J(i,0..est-1) Y(i) W(i)                   -> row ...
 
-  Lines the C++ could only answer with undefined behaviour (index outside the buffers, `est` larger than the
-  allocated column count, `est = 0`) are `bad-op` on both sides. -/
+  Lines the C++ could only answer with undefined behaviour (index outside the buffers, `est = 0`) are `bad-op` on both
+  sides.  (Since the repair of `setEstimateSize` the design matrix always has `est` columns once rows are allocated.) -/
 
 class Wire (α : Type) where
   parse? : String → Option α
@@ -36,13 +36,13 @@ def fmtVec (tag : String) (v : Vec α) : String := unwords (tag :: v.toList.map 
 def fmtMat (tag : String) (m : Mat α) : String := unwords (tag :: (m.toList.map fun r => r.toList.map Wire.fmt).flatten)
 
 /-- the accesses of an estimate / peek stay inside the buffers -/
-def shapeOk (s : State α) : Bool := 1 ≤ s.est && (s.dataSize == 0 || s.est ≤ s.J.cols) && s.dataSize ≤ s.Y.size
+def shapeOk (s : State α) : Bool := 1 ≤ s.est && s.dataSize ≤ s.Y.size
 
 def stepG (s : State α) (toks : List String) : State α × String :=
   match toks with
   | ["ls.est", e] =>
     match e.toNat? with
-    | some e => if 1 ≤ e ∧ e ≤ 64 then (setEstimateSize s e, "ok") else (s, "bad-op")
+    | some e => if 1 ≤ e ∧ e ≤ 64 then (setEstimateSize s e (fun _ _ => Wire.nan), "ok") else (s, "bad-op")
     | none => (s, "bad-op")
   | ["ls.size", n] =>
     match n.toNat? with
@@ -54,7 +54,7 @@ def stepG (s : State α) (toks : List String) : State α × String :=
   | "ls.row" :: i :: rest =>
     match i.toNat?, parseAll? (Wire.parse? (α := α)) rest with
     | some i, some vals =>
-      if s.est = 0 ∨ vals.length ≠ s.est + 1 ∨ i ≥ s.Y.size ∨ s.est > s.J.cols then (s, "bad-op") else
+      if s.est = 0 ∨ vals.length ≠ s.est + 1 ∨ i ≥ s.Y.size then (s, "bad-op") else
       (writeRow s i (vals.take s.est).toArray (vals.getD s.est zero), "ok")
     | _, _ => (s, "bad-op")
   | ["ls.w", i, w] =>
@@ -90,7 +90,7 @@ def stepG (s : State α) (toks : List String) : State α × String :=
   | ["ls.peek", i] =>
     match i.toNat? with
     | some i =>
-      if s.est = 0 ∨ i ≥ s.Y.size ∨ s.est > s.J.cols then (s, "bad-op") else
+      if s.est = 0 ∨ i ≥ s.Y.size then (s, "bad-op") else
       (s, unwords ("row" :: ((List.range s.est).map fun c => Wire.fmt (s.J.get i c)) ++ [Wire.fmt (s.Y.get i), Wire.fmt (s.W.get i)]))
     | none => (s, "bad-op")
   | _ => (s, "bad-op")
